@@ -68,7 +68,11 @@ def shards(tier, seed, scale=1.0):
     if tier == 'quick':
         budget, plen, S, hyp_n, ncfg = 3, 5, 32, 150, 3
     else:
-        budget, plen, S, hyp_n, ncfg = 4, 5, 192, 2500, 4
+        # budget 4 (235 k segment lists) on all paths up to length 4 under 2 configurations, and budget 3 on paths up to
+        # length 5 under 5 configurations
+        budget, plen, S, hyp_n, ncfg = 4, 4, 256, 2500, 2
+        for s in range(32):
+            out.append({'name': 'enum3x5-%d' % s, 'kind': 'enum', 'shard': s, 'of': 32, 'budget': 3, 'plen': 5, 'ncfg': 5})
     for s in range(S):
         out.append({'name': 'enum-%d' % s, 'kind': 'enum', 'shard': s, 'of': S, 'budget': budget, 'plen': plen, 'ncfg': ncfg})
     for s in range(16):
